@@ -299,8 +299,14 @@ impl Subscriber for SubscriberService {
                     return Ok(Response::new(PullResponse { received_messages }));
                 }
 
-                // Otherwise, wait for messages to be available.
-                signal.await;
+                // Otherwise, wait for messages to be available, or for the subscription
+                // to be deleted (no message can arrive after that).
+                tokio::select! {
+                    _ = signal => {},
+                    _ = subscription.deleted() => {
+                        return Err(subscription_not_found(&subscription_name));
+                    }
+                }
             }
         };
 
@@ -358,7 +364,8 @@ impl Subscriber for SubscriberService {
 
                     // Then, pull the available messages from the subscription.
                     let pulled = match subscription.pull_messages(max_count).await {
-                        Err(PullMessagesError::Closed) => return,
+                        // The subscription's actor is gone: it was deleted.
+                        Err(PullMessagesError::Closed) => break,
                         Ok(pulled) => pulled,
                     };
 
